@@ -30,7 +30,7 @@ var c07Configs = []struct{ g, procs int }{{2, 2}, {8, 2}, {32, 2}, {2, 16}, {8, 
 
 var c07DirectedDoc = c07BuildDirectedDoc()
 
-const c07DirectedDocSmall = `{"nums":[5,3,9,1,7,2,8,4,6,0,15,13,19,11,17,12,18,14,16,10],"strs":["e","c","i","a","g","b","h","d","f","z","y","x","w"],"recs":[{"k":5,"s":"e"},{"k":3,"s":"c"},{"k":9,"s":"i"},{"k":1,"s":"a"},{"k":7,"s":"g"},{"k":2,"s":"b"},{"k":8,"s":"h"},{"k":4,"s":"d"},{"k":6,"s":"f"},{"k":0,"s":"z"},{"k":15,"s":"y"},{"k":13,"s":"x"},{"k":19,"s":"w"}],"nested":[[3,1,2],[9,7,8],[6,4,5]],"objs":{"a":{"p":1},"b":{"q":2}}}`
+const c07DirectedDocSmall = `{"label":"abc","nums":[5,3,9,1,7,2,8,4,6,0,15,13,19,11,17,12,18,14,16,10],"strs":["e","c","i","a","g","b","h","d","f","z","y","x","w"],"recs":[{"k":5,"s":"e"},{"k":3,"s":"c"},{"k":9,"s":"i"},{"k":1,"s":"a"},{"k":7,"s":"g"},{"k":2,"s":"b"},{"k":8,"s":"h"},{"k":4,"s":"d"},{"k":6,"s":"f"},{"k":0,"s":"z"},{"k":15,"s":"y"},{"k":13,"s":"x"},{"k":19,"s":"w"}],"nested":[[3,1,2],[9,7,8],[6,4,5]],"objs":{"a":{"p":1},"b":{"q":2}}}`
 
 // c07Directed: every function that orders, reverses or merges, applied to every
 // way of handing it an array of the shared document (or a literal of the shared
@@ -88,15 +88,18 @@ func c07Directed() []string {
 		out = append(out, "sort_by("+src+", &k)[*].id", "sort_by("+src+", &s)[*].id", "max_by("+src+", &k).id", "min_by("+src+", &s).id", "group_by("+src+", &s) | length(@)", "map(&k, "+src+") | sort(@)", "reverse("+src+")[0].id")
 	}
 	out = append(out, "sort_by(bigbad, &k)", "sort_by(bigbad, &s)", "max_by(bigbad, &k)", "min_by(bigbad, &s)", "sort(bigstrs)", "sort(bignums)", "sort(bigbad[*].k)", "sort(bigbad[*].s)", "max(bigbad[*].k)", "join(',', bigbad[*].s)", "sort_by(bigbad[:60], &k)[*].id", "sort_by(bigbad[60:], &k)", "group_by(bigbad, &s)", "sum(bigbad[*].k)", "avg(bigbad[*].k)", "bigstrs[?@ > 's050'] | length(@)", "bignums[?@ > `50`] | length(@)")
-	wraps := []string{"%s", "%s[*]", "%s[:]", "%s[0:]", "%s[]", "%s[?`true`]", "to_array(%s)", "not_null(%s)", "(%s)", "%s | @", "[%s][0]", "{a: %s}.a", "%s || `[]`", "let $x = %s in $x", "map(&@, %s)"}
+	wraps := []string{"%s", "%s[*]", "%s[:]", "%s[0:]", "%s[]", "%s[?`true`]", "to_array(%s)", "not_null(%s)", "(%s)", "%s | @", "[%s][0]", "{a: %s}.a", "%s || `[]`", "let $x = %s in $x", "map(&@, %s)",
+		// a slice of a string hands on whatever the next selector returns, e.g. an array of the document
+		"label[:1].not_null($.%s)", "label[0:].to_array($.%s)", "label[:2].not_null(`null`, $.%s)", "label[::2].[$.%s][0]", "let $r = @ in label[:1].not_null($r.%s)"}
 	for _, w := range wraps {
 		nums := fmt.Sprintf(w, "nums")
 		strs := fmt.Sprintf(w, "strs")
 		recs := fmt.Sprintf(w, "recs")
-		lit := fmt.Sprintf(w, "`[5,3,9,1,7,2,8,4,6,0,15,13,19,11,17,12,18,14,16,10]`")
+		lit := strings.NewReplacer("$.`", "`", "$r.`", "`").Replace(fmt.Sprintf(w, "`[5,3,9,1,7,2,8,4,6,0,15,13,19,11,17,12,18,14,16,10]`"))
 		out = append(out, "sort("+nums+")", "sort("+strs+")", "sort("+lit+")", "reverse("+nums+")", "reverse("+lit+")",
 			"sort_by("+recs+", &k)[*].k", "sort_by("+recs+", &s)[*].s", "sort_by("+nums+", &@)", "max_by("+recs+", &k).k", "min_by("+recs+", &s).s",
-			"group_by("+recs+", &s) | keys(@) | sort(@)", nums+" | sort(@)", nums+" | reverse(@)")
+			"group_by("+recs+", &s) | keys(@) | sort(@)", nums+" | sort(@)", nums+" | reverse(@)",
+			recs+" | [*].k", nums+" | [*].[@]", recs+" | [?k > `3`].k", recs+" | [].k", nums+" | [*]", recs+" | [*].{k: k}", "("+nums+")[*]", nums+" | [::-1]", nums+" | [1:] | [*]", recs+" | map(&k, @)")
 	}
 	// integer arguments in every spelling and inexact decimal arithmetic: anything process-wide that
 	// number handling touches (rounding modes, caches) is then written and read concurrently
